@@ -4,10 +4,12 @@ import (
 	"bytes"
 	"context"
 	"crypto"
+	"crypto/rsa"
 	"encoding/binary"
 	"errors"
 	"fmt"
 	"io"
+	"math/big"
 	mrand "math/rand/v2"
 	"os"
 	"os/exec"
@@ -209,6 +211,22 @@ func loadPool() (*keyPool, error) {
 			if err != nil {
 				poolErr = fmt.Errorf("NewEntity: %v", err)
 				return
+			}
+			// Entity.SerializePrivate writes Primes[1] as p and Primes[0] as q whatever their
+			// order; RFC 4880 5.5.3 wants p < q and GnuPG's CRT goes wrong now and then with
+			// p > q (observed: ~3% bad signatures).  The copy handed to gpg must be a valid
+			// key, so order the primes first (reported to the lead as an observation
+			// outside C44-C47: key export is not part of these properties).
+			for _, pk := range []*packet.PrivateKey{e.PrivateKey, e.Subkeys[0].PrivateKey} {
+				if r, ok := pk.PrivateKey.(*rsa.PrivateKey); ok && len(r.Primes) == 2 && r.Primes[1].Cmp(r.Primes[0]) > 0 {
+					nk := &rsa.PrivateKey{PublicKey: r.PublicKey, D: r.D, Primes: []*big.Int{r.Primes[1], r.Primes[0]}}
+					if err := nk.Validate(); err != nil {
+						poolErr = err
+						return
+					}
+					nk.Precompute()
+					pk.PrivateKey = nk
+				}
 			}
 			var sec, pub bytes.Buffer
 			if err := armorTo(&sec, openpgp.PrivateKeyType, func(w io.Writer) error { return e.SerializePrivate(w, cfg) }); err != nil {
